@@ -26,14 +26,22 @@ class Agent(object):
         self.host = host
         self.name = node_id
         self.ctx = simloop.Context(host)
-        cfg = udpcl.config.Config(node_id=node_id, mtu_default=mtu)
+        # loaded the way a deployment loads it: Config.from_file() on a YAML document (JSON form); a listener named
+        # there is started by the agent itself
+        import io
+        import json
+        doc = dict(node_id=node_id)
+        if mtu is not None:
+            doc['mtu_default'] = int(mtu)
+        if listen_port:
+            doc['init_listen'] = [dict(address=host, port=int(listen_port))]
+        cfg = udpcl.config.Config()
+        cfg.from_file(io.StringIO(json.dumps({'udpcl': doc})))
         self.config = cfg
         simudp.NET.current_host = host
         simudp.NET.current_owner = self.name
         with simloop.entered(self.ctx):
             self.agent = uagent.Agent(cfg)
-            if listen_port:
-                self.agent.listen(host, listen_port, {})
 
     def call(self, member, *args):
         simudp.NET.current_host = self.host
